@@ -551,3 +551,13 @@ func init() {
 	mutant("scheme-extends-the-default", "server-response-encoding", "serverConn.go", "				strm.scheme = append(strm.scheme[:0], v...)", "				strm.scheme = append(strm.scheme[:1], v...)")
 	mutant("carried-bytes-decoded-again", "server-response-encoding", "serverConn.go", "	strm.previousHeaderBytes = b[:0]\n", "")
 }
+
+func init() {
+	mutant("has-more-needs-both", "small-predicates", "stream.go", "	return len(s.pendingData) > 0 || s.bodyStream != nil", "	return len(s.pendingData) > 0 && s.bodyStream != nil")
+	mutant("continuing-any-frame", "small-predicates", "stream.go", "	return fr.Type() == FrameContinuation && !s.headersFinished", "	return fr.Type() == FrameContinuation || !s.headersFinished")
+	mutant("enable-push-inverted", "small-predicates", "settings.go", "			st.enablePush = value != 0", "			st.enablePush = value == 0")
+	mutant("settings-ack-always-refused", "small-predicates", "settings.go", "	if st.IsAck() && len(fr.payload) > 0 {", "	if st.IsAck() || len(fr.payload) > 0 {")
+	mutant("frame-payload-keeps-a-stale-octet", "replace-idiom", "frameHeader.go", "	f.payload = append(f.payload[:0], payload...)", "	f.payload = append(f.payload[:1], payload...)")
+	mutant("stream-path-keeps-a-stale-octet", "replace-idiom", "stream.go", "	strm.path = strm.path[:0]", "	strm.path = strm.path[:1]")
+	mutant("settings-encode-keeps-previous-octets", "replace-idiom", "settings.go", "func (st *Settings) Encode() {\n	st.rawSettings = st.rawSettings[:0]", "func (st *Settings) Encode() {\n	st.rawSettings = st.rawSettings[:6]")
+}
